@@ -12,6 +12,7 @@ from . import c02
 
 PROP = 'C10'
 M = dict(session_messages())
+M['OPEN_PEER_H0'] = wire.open_msg(65002, 0, PEER_ID, __import__('vf.alphabet', fromlist=['peer_caps']).peer_caps())
 M['OPEN_RICH'] = wire.open_msg(65002, 90, PEER_ID, [wire.cap_mp(1, 1), wire.cap_mp(2, 1), wire.cap_mp(1, 133), wire.cap(wire.CAP_RR), wire.cap(wire.CAP_RR_OLD),
                                                     wire.cap(70), wire.cap_gr(0x4078, [(1, 1, 0x80)]), wire.cap_addpath([(1, 1, 3)]),
                                                     wire.cap_llgr([(1, 1, 0, 3600)]), wire.cap_ext_nh([(1, 1, 2)])])
@@ -20,6 +21,8 @@ STATES = {
     'openconfirm': [('TICK', 0), ('CONN_OK', 0), ('RX', 0, 'OPEN_OK')],
     'established': [('TICK', 0), ('CONN_OK', 0), ('RX', 0, 'OPEN_OK'), ('RX', 0, 'KA')],
     'established-hold0': [('TICK', 0), ('CONN_OK', 0), ('RX', 0, 'OPEN_OK'), ('RX', 0, 'KA')],
+    # hold time 0 because the PEER proposed it (180 configured): the configured and the negotiated value differ
+    'established-peer-hold0': [('TICK', 0), ('CONN_OK', 0), ('RX', 0, 'OPEN_PEER_H0'), ('RX', 0, 'KA')],
     # 7 s after the last message: a restart of the hold timer is visible in the timer residues
     'established-later': [('TICK', 0), ('CONN_OK', 0), ('RX', 0, 'OPEN_OK'), ('RX', 0, 'KA'), ('WAIT', 7.0)],
     # the peer announced every capability the agent knows (enhanced route refresh, graceful restart, ADD-PATH, LLGR, extended next
@@ -90,6 +93,7 @@ def _c02_harness():
     h = c02.Harness()
     h.messages = dict(h.messages)
     h.messages['OPEN_RICH'] = M['OPEN_RICH']
+    h.messages['OPEN_PEER_H0'] = M['OPEN_PEER_H0']
     return h
 
 
@@ -131,7 +135,7 @@ def check_one(state, label, frame):
     closed = t.lose_time is not None
     if state.startswith('established') and ty == wire.UPDATE and len(frame) >= 23:
         # with hold time 0 nothing is armed; otherwise let the next timer fire: a session that dies one reactor turn later is torn down too
-        if not closed and w.due() and state == 'established-hold0':
+        if not closed and w.due() and state in ('established-hold0', 'established-peer-hold0'):
             w.step(('TICK', 0))
             new = [m for _, d in t.writes[nw:] for m in wire.abstract_writes(d)]
             closed = t.lose_time is not None
